@@ -271,9 +271,10 @@ def abstract_state():
                 k = "absent"
             out.append(k[0])
     props = ",".join(sorted(core.PUBLIC_TABLE.properties))
-    mods = ",".join(sorted(m.split(".", 1)[1] for m in sys.modules
-                           if m.startswith("periodictable.") and m.split(".", 1)[1] in MODULES))
-    return "".join(out) + "|" + props + "|" + mods
+    # Imported submodules are deliberately not part of the state: importing has no effect on the
+    # loaders other than through the class attributes above (an import with such a side effect
+    # shows up there), and 2^9 import subsets would multiply the state space for nothing.
+    return "".join(out) + "|" + props
 
 
 # ----------------------------------------------------------------------
